@@ -302,8 +302,8 @@ def gen_scenario(rng):
         r0 = r1 = 3 * 10 ** 29
         steps[-1]['amounts'] = [str(10 ** 18), str(10 ** 18)]
         steps.append(dict(op='provide', pair=0, sender='alice', amounts=[str(r0), str(r1)]))
-        steps.append(dict(op='donate', pair=0, sender='mallory', idx=rng.randrange(2), amount=str(10 ** 29)))
-        steps.append(dict(op='withdraw', pair=0, sender='alice', amount=str(10 ** 29)))
+        steps.append(dict(op='donate', pair=0, sender='mallory', idx=rng.randrange(2), amount=str(rng.choice([10 ** 29, 10 ** 31, 10 ** 32]))))
+        steps.append(dict(op='withdraw', pair=0, sender='alice', amount=str(rng.choice([10 ** 29, 2 * 10 ** 29, 10 ** 27]))))
     est = [r0, r1]
     sup = isqrt(r0 * r1)
     n = rng.randrange(3, 8)
